@@ -1,0 +1,19 @@
+//! Verification hooks (compiled only with `--cfg msi_verif`): thin public
+//! wrappers around crate-private functions so that an external harness can
+//! compare them against a formal model.  Nothing here changes behaviour.
+
+use crate::internal::timestamp::Timestamp;
+use std::time::SystemTime;
+
+/// `Timestamp::from_system_time`, returning the raw tick count.
+pub fn timestamp_from_system_time(time: SystemTime) -> u64 {
+    let mut bytes = Vec::<u8>::new();
+    Timestamp::from_system_time(time).write_to(&mut bytes).unwrap();
+    u64::from_le_bytes(bytes[..8].try_into().unwrap())
+}
+
+/// `Timestamp::to_system_time` on a raw tick count.
+pub fn timestamp_to_system_time(ticks: u64) -> SystemTime {
+    let bytes = ticks.to_le_bytes();
+    Timestamp::read_from(&mut &bytes[..]).unwrap().to_system_time()
+}
